@@ -7,6 +7,8 @@
 //! * [`set_tick_observer`] installs a thread-local observer that is called once per
 //!   iteration of the SMO loops of `SVC::fit` and `SVR::fit` with a digest of the optimizer
 //!   state (a logical clock and a cycle detector for liveness checks).
+//! * [`set_tree_fit_observer`] installs a thread-local observer that is handed the per-row sample counts
+//!   (the bootstrap sample) every tree is grown from.
 
 use std::cell::RefCell;
 
@@ -127,4 +129,25 @@ pub(crate) fn bits<T: RealNumber>(v: T) -> u64 {
 pub fn quick_argsort_mut<T: num_traits::Float>(v: &mut Vec<T>) -> Vec<usize> {
     use crate::algorithm::sort::quick_sort::QuickArgSort;
     v.quick_argsort_mut()
+}
+
+type TreeFitObserver = Box<dyn FnMut(&[usize])>;
+
+thread_local! {
+    static TREE_FIT_OBS: RefCell<Option<TreeFitObserver>> = RefCell::new(None);
+}
+
+/// Install (or, with `None`, remove) this thread's tree-fit observer. It is called at the start of every
+/// tree fit with the per-row sample counts the tree is about to be grown from (all ones for a plain fit,
+/// the bootstrap sample inside a forest).
+pub fn set_tree_fit_observer(obs: Option<TreeFitObserver>) {
+    TREE_FIT_OBS.with(|o| *o.borrow_mut() = obs);
+}
+
+pub(crate) fn tree_fit_samples(samples: &[usize]) {
+    TREE_FIT_OBS.with(|o| {
+        if let Some(f) = o.borrow_mut().as_mut() {
+            f(samples);
+        }
+    });
 }
